@@ -102,3 +102,8 @@ Lemma ex_sim_nontrivial :
   (match esir_run fifo exG ex_delay ex_dur [10%N] [40%N] (1#2) (Some 9) (esir_fuel exG [10%N]) with
    | Ok s => length (tlog s) | Err _ => O end = 3%nat).
 Proof. split; vm_compute; reflexivity. Qed.
+
+(* one RK4 step moves the example state *)
+Lemma ex_rk4_moves :
+  veqb (rk_iter rk4_tab rk4_b (rhs2_node 0 exG ex_nodelist ex_idx ex_tr ex_rc) (1 # 10) 0 1 (ex_V 0)) (ex_V 0) = false.
+Proof. vm_compute. reflexivity. Qed.
